@@ -19,6 +19,9 @@ pub struct Instr {
     pub gate: Option<Gate>,
     /// index of the current call within the running evaluation step (set by the gated evaluator)
     pub ids: Mutex<Vec<String>>,
+    /// the objective function is not a pure function of the solution: every call adds (call number mod 5) / 8
+    pub noisy: std::sync::atomic::AtomicBool,
+    pub seen: Mutex<std::collections::HashMap<String, u32>>,
 }
 impl Instr {
     pub fn new() -> Arc<Instr> {
@@ -35,6 +38,18 @@ impl Instr {
     }
     pub fn min(&self) -> Option<f64> {
         *self.min_bits.lock().unwrap()
+    }
+    /// additive noise of the call that is about to be recorded (0 unless `noisy`): (number of earlier calls for the same
+    /// solution mod 5) / 8 -- independent of the order in which different solutions are evaluated
+    pub fn noise(&self, key: impl FnOnce() -> String) -> f64 {
+        if self.noisy.load(Ordering::SeqCst) {
+            let mut m = self.seen.lock().unwrap();
+            let c = m.entry(key()).or_insert(0u32);
+            *c += 1;
+            ((*c - 1) % 5) as f64 * 0.125
+        } else {
+            0.0
+        }
     }
     fn record(&self, key: impl FnOnce() -> String, v: f64) {
         self.calls.fetch_add(1, Ordering::SeqCst);
@@ -84,6 +99,8 @@ pub enum FKind {
     /// sum |x - 0.3| + 0.5, plus 1 for every coordinate that is a negative zero: tells apart solutions
     /// that compare equal with `==` (like atan2 across its branch cut)
     ZeroSign,
+    /// death penalty: the sphere inside the box |x_i| <= 0.05, +inf (a legal objective value) everywhere else
+    Penalty,
 }
 
 #[derive(Clone)]
@@ -104,6 +121,13 @@ impl RealP {
             FKind::Linear => x.iter().sum::<f64>() + 100.0,
             FKind::Tiny => 1e-18 * x.iter().map(|v| v * v).sum::<f64>(),
             FKind::ZeroSign => x.iter().map(|v| (v - 0.3).abs()).sum::<f64>() + 0.5 + x.iter().filter(|v| **v == 0.0 && v.is_sign_negative()).count() as f64,
+            FKind::Penalty => {
+                if x.iter().all(|v| v.abs() <= 0.05) {
+                    x.iter().map(|v| v * v).sum::<f64>()
+                } else {
+                    f64::INFINITY
+                }
+            }
         }
     }
 }
@@ -130,7 +154,7 @@ impl LimitedVectorProblem for RealP {
 }
 impl ObjectiveFunction for RealP {
     fn objective(&self, s: &Vec<f64>) -> SingleObjective {
-        let v = self.f(s);
+        let v = self.f(s) + self.instr.noise(|| fkey(s));
         self.instr.record(|| fkey(s), v);
         SingleObjective::try_from(v).expect("objective function produced an illegal value")
     }
@@ -143,6 +167,7 @@ impl KnownOptimumProblem for RealP {
             FKind::Linear => self.dom.iter().map(|d| d.start).sum::<f64>() + 100.0,
             FKind::Tiny => 0.0,
             FKind::ZeroSign => 0.5,
+            FKind::Penalty => 0.0,
         };
         SingleObjective::try_from(v).unwrap()
     }
@@ -174,7 +199,7 @@ impl VectorProblem for BinP {
 }
 impl ObjectiveFunction for BinP {
     fn objective(&self, s: &Vec<bool>) -> SingleObjective {
-        let v = self.f(s);
+        let v = self.f(s) + self.instr.noise(|| format!("{:?}", s));
         self.instr.record(|| s.iter().map(|b| if *b { '1' } else { '0' }).collect(), v);
         SingleObjective::try_from(v).unwrap()
     }
@@ -243,7 +268,7 @@ impl TravellingSalespersonProblem for TspP {
 }
 impl ObjectiveFunction for TspP {
     fn objective(&self, s: &Vec<usize>) -> SingleObjective {
-        let v = self.f(s);
+        let v = self.f(s) + self.instr.noise(|| format!("{:?}", s));
         self.instr.record(|| format!("{:?}", s), v);
         SingleObjective::try_from(v).unwrap()
     }
